@@ -13,6 +13,7 @@
    closure, so the same theorems cover directories listed through the VFS. *)
 From Coq Require Import List NArith Bool Lia.
 From FB Require Import Model.Readdir Proofs.Readdir Proofs.ReaddirStep Proofs.ReaddirListing Proofs.ReaddirInst Proofs.ReaddirScan Proofs.ReaddirFallback Proofs.ReaddirAnyHost.
+From FB Require Lib.RustExpr Gen.RustPure Proofs.RustPure Proofs.RustPureServer.
 Import ListNotations.
 Local Open Scope N_scope.
 
@@ -226,6 +227,16 @@ Example C16_pseudo_nonvacuous :
   = [POk [mk_dirent 5 1 0 [97] 0]; POk [mk_dirent 6 2 0 [98; 99] 0]; POk []].
 Proof. split; [cbn; repeat split; try discriminate; cbv; discriminate|reflexivity]. Qed.
 
+(* ---- tie to the source text (Gen/RustPure.v is re-translated from src/api/server/sync_io.rs on every run): the reply
+   record size [round8 (24 + namelen) + (128 for readdirplus)] and the skip test [(size - written) <? total] of the
+   readdir model are what the body of add_dirent computes under rustc's integer semantics *)
+Theorem C16_src_add_dirent : forall max nl plus written,
+  max < 4294967296 -> nl <= 4294967295 -> written < 18446744073709551616 ->
+  RustExpr.eval_fn RustExpr.Debug RustPure.add_dirent_src
+    [RustExpr.VInt RustExpr.U32 max; RustExpr.VInt RustExpr.Usize nl; RustExpr.VBool plus; RustExpr.VInt RustExpr.Usize written] =
+  RustPureServer.add_dirent_spec (round8 (24 + nl) + (if plus then 128 else 0)) max written.
+Proof. exact RustPureServer.src_add_dirent_readdir. Qed.
+
 Print Assumptions C16_full.
 Print Assumptions C16_unrepaired_refuted.
 Print Assumptions C16_exactly_once_partial.
@@ -244,3 +255,4 @@ Print Assumptions C16_full_any_host.
 Print Assumptions C16_unrepaired_refuted_any_host.
 Print Assumptions C16_pseudo_exactly_once.
 Print Assumptions C16_pseudo_size_respected.
+Print Assumptions C16_src_add_dirent.
